@@ -54,9 +54,16 @@ Definition new_from_pos (s : str) (pos : nat) (msg : str) : res error :=
   Ok {| e_location := IPos pos; e_line_col := LPos lc; e_path := None; e_line := line;
         e_continued := None; e_message := msg |}.
 
-(* `fix_continued` = false: the code as shipped; true: with fixes/C10-1-continued-line-visualize.patch
-   (the continued line is always passed through visualize_whitespace) *)
-Definition new_from_span (fix_continued : bool) (s : str) (sp : nat * nat) (msg : str) : res error :=
+(* Which repairs of Error::new_from_span the tree carries (the driver probes the tree):
+   fix_continued  fixes/C10-1-continued-line-visualize.patch: the continued line is always passed
+                  through visualize_whitespace (as shipped: emitted raw when the span starts/ends with CR/LF);
+   fix_eoi_line   fixes/C10-2-empty-span-at-end-line.patch: when no line meets the span (empty span at
+                  the end of the input) the shown line is start_pos().line_of() (as shipped: ""). *)
+Record fixes := { fix_continued : bool; fix_eoi_line : bool }.
+Definition fixes_none : fixes := {| fix_continued := false; fix_eoi_line := false |}.
+Definition fixes_all : fixes := {| fix_continued := true; fix_eoi_line := true |}.
+
+Definition new_from_span (fx : fixes) (s : str) (sp : nat * nat) (msg : str) : res error :=
   let e := snd sp in
   elc <- line_col s e ;;
   elc' <- (if Nat.eqb (snd elc) 1 then
@@ -65,7 +72,11 @@ Definition new_from_span (fix_continued : bool) (s : str) (sp : nat * nat) (msg 
              Ok (fst lc, snd lc + 1)
            else Ok elc) ;;
   ls <- lines s sp ;;
-  let sl := hd [] ls in                                     (* line_iter.next().unwrap_or("") *)
+  sl <- (match ls with
+         | x :: _ => Ok x
+         | [] => if fix_eoi_line fx then line_of s (fst sp)   (* .unwrap_or_else(|| span.start_pos().line_of()) *)
+                 else Ok []                                    (* .unwrap_or("") *)
+         end) ;;
   txt <- span_as_str s sp ;;
   let visualize_ws :=
       match txt with
@@ -74,7 +85,7 @@ Definition new_from_span (fix_continued : bool) (s : str) (sp : nat * nat) (msg 
       end in
   let start_line := if visualize_ws then visualize_whitespace sl else strip_crlf sl in
   let ll := match tl ls with [] => None | x :: r => Some (last r x) end in   (* line_iter.last() *)
-  let continued := if fix_continued then option_map visualize_whitespace ll
+  let continued := if fix_continued fx then option_map visualize_whitespace ll
                    else if visualize_ws then ll else option_map visualize_whitespace ll in
   slc <- line_col s (fst sp) ;;
   Ok {| e_location := ISpan (fst sp, e); e_line_col := LSpan slc elc'; e_path := None;
@@ -158,5 +169,5 @@ Definition format (e : error) : res str :=
 (* format!("{}", Error::new_from_pos(CustomError{msg}, Position::new(s, pos).unwrap())) *)
 Definition render_pos (s : str) (pos : nat) (msg : str) : res str :=
   e <- new_from_pos s pos msg ;; format e.
-Definition render_span (fix_continued : bool) (s : str) (sp : nat * nat) (msg : str) : res str :=
-  e <- new_from_span fix_continued s sp msg ;; format e.
+Definition render_span (fx : fixes) (s : str) (sp : nat * nat) (msg : str) : res str :=
+  e <- new_from_span fx s sp msg ;; format e.
